@@ -8,8 +8,8 @@ d="$(readlink -f "$1")"; shift
 cd "$(dirname "$(readlink -f "$0")")"
 export GOPROXY=off GOSUMDB=off GOTOOLCHAIN=local
 demo=$(jq -r .demonstration "$d/meta.json")
-pkgdir=$(echo "$demo" | grep -oE '(in)?to `?[a-z][a-z0-9_/-]+/`? ' | head -1 | sed -E 's/(in)?to `?//; s/`? $//; s/\/$//')
-runcmd=$(echo "$demo" | grep -oE '`go test [^`]+`' | head -1 | tr -d '`')
+pkgdir=$(echo "$demo" | grep -oE '(lib|lang|cmd|internal)/[A-Za-z0-9_/]*[A-Za-z0-9_]' | head -1)
+runcmd=$(echo "$demo" | grep -oE "go test [^\`]*\./(lib|lang|cmd|internal)/[A-Za-z0-9_/]+" | head -1 | tr -d "'")
 echo "demo dir: $pkgdir ; cmd: $runcmd"
 wt=$(mktemp -d /dev/shm/seedv.XXXXXX); rmdir $wt
 git -C /repo worktree add -q --detach "$wt" HEAD || exit 2
@@ -21,6 +21,11 @@ if [ -f "$d/demo_test.go" ] && [ -n "$pkgdir" ]; then
   echo "demo without patch: exit $pre (want 0)"; [ $pre -ne 0 ] && tail -5 "$wt.out.pre"
   rm -f "$wt/$pkgdir/zz_demo_test.go"
 fi
+if [ -f "$d/demo/demo.sh" ]; then
+  (bash "$d/demo/demo.sh" "$wt" >"$wt.out.pre2" 2>&1); pre2=$?
+  echo "demo.sh without patch: exit $pre2 (want 0)"; [ $pre2 -ne 0 ] && tail -5 "$wt.out.pre2"
+  git -C "$wt" checkout -q -- . ; git -C "$wt" clean -fdq
+fi
 git -C "$wt" apply "$d/patch.diff" || { echo "PATCH DOES NOT APPLY"; exit 1; }
 (cd "$wt" && GOFLAGS=-mod=readonly go build ./... 2>&1 | tail -3 && GOFLAGS=-mod=readonly go test -vet=off -count=1 ./... 2>&1 | grep -v "^ok\|no test files" | tail -5); 
 (cd "$wt" && GOFLAGS=-mod=readonly go test -vet=off -count=1 ./... >/dev/null 2>&1); echo "test suite with patch: exit $? (want 0)"
@@ -30,7 +35,12 @@ if [ -f "$d/demo_test.go" ] && [ -n "$pkgdir" ]; then
   echo "demo with patch: exit $post (want non-zero)"; grep -m3 -E "^\s+.*_test.go|FAIL" "$wt.out.post" | cut -c1-300
   rm -f "$wt/$pkgdir/zz_demo_test.go"
 fi
-rm -f "$wt.out.pre" "$wt.out.post"
+if [ -f "$d/demo/demo.sh" ]; then
+  (bash "$d/demo/demo.sh" "$wt" >"$wt.out.post2" 2>&1); post2=$?
+  echo "demo.sh with patch: exit $post2 (want non-zero)"; tail -4 "$wt.out.post2" | cut -c1-300
+  git -C "$wt" status --short | grep -v "^ M\|^M " | head -3
+fi
+rm -f "$wt.out.pre" "$wt.out.post" "$wt.out.pre2" "$wt.out.post2"
 for id in "$@"; do
   out=$(VERIF_BUDGET_S=${SEED_BUDGET_S:-3000} VERIF_REPO="$wt" VERIF_OUT="$wt.out" ./run.sh "$id" ${SEED_TIER:-quick} 2>&1); code=$?
   mkdir -p /dev/shm/seedlogs; echo "$out" > "/dev/shm/seedlogs/$(basename $(dirname $d))_$(basename $d).$id.check.log"
